@@ -52,11 +52,17 @@ def run(tier):
     judge(chk, recs, "c07g", tier, from_producer=True)
     # (V) IncrementalDocument rounds
     tr2 = os.path.join(w, "inc.ndjson")
-    run_bin("c07", ["record", "--seed", vlib.seed(), "--n", 60 if tier == "quick" else 1500, "--out", tr2])
+    # bases: lopdf's own saves, plus Producer files (1-2 revisions; compressed xref streams, object streams, XRef
+    # stream objects below the highest number, junk before the header)
+    bases = [f for f in files if f["nrevs"] <= 2][:40 if tier == "quick" else 600]
+    bp = os.path.join(w, "bases.ndjson")
+    write_ndjson(bp, bases)
+    chk.extra["producer_bases"] = dict(collections.Counter("%s/%s%s" % (f["xref"], f["sfilter"], "/selfgap" if f.get("selfgap") else "") for f in bases))
+    run_bin("c07", ["record", "--seed", vlib.seed(), "--n", 60 if tier == "quick" else 1500, "--bases", bp, "--out", tr2])
     recs2 = read_ndjson(tr2)
-    if sum(1 for r in recs2 if r["ev"] == "SaveInc") < 20:
-        raise vlib.ToolError("vacuous: too few SaveInc events recorded")
     judge(chk, recs2, "c07v", tier, from_producer=False)
+    if sum(1 for r in recs2 if r["ev"] == "SaveInc") < 20 and not chk.violations:
+        raise vlib.ToolError("vacuous: too few SaveInc events recorded")
     for r in recs2:
         if r["ev"] == "SaveInc" and r["res"] == "ok" and r.get("round") == 1:
             chk.sample({"second_round_incremental_file_tail_ascii": bytes(r["bytes"][-500:]).decode("latin-1")}, cap=2)
@@ -86,13 +92,13 @@ def run(tier):
                     raise vlib.ToolError("negative control %s accepted by Trace_Lifecycle" % name)
                 neg_done += 1
             break
-    if neg_done == 0:
+    if neg_done == 0 and not chk.violations:
         raise vlib.ToolError("no record suitable for negative controls")
     chk.extra["negative_controls_rejected"] = neg_done
     return chk.finish()
 
 
-def judge(chk, recs, name, tier, from_producer):
+def judge(chk, recs, name, tier, from_producer, prefix="C07"):
     bounds = [i for i, r in enumerate(recs) if r["ev"] in ("File", "Reset")]
     verdicts, states, trans = vlib.validate_trace("Trace_Lifecycle.tla", "Trace_Lifecycle.cfg", recs, name,
                                                   boundaries=bounds, chunks=1 if tier == "quick" else 12)
@@ -117,14 +123,14 @@ def judge(chk, recs, name, tier, from_producer):
             if v["v"].startswith("ok"):
                 chk.traces += 1
             else:
-                junk = lastfile is not None and lastfile["ev"] == "File" and lastfile.get("knobs", {}).get("junk", 0) > 0
+                junk = lastfile is not None and lastfile["ev"] == "File" and (lastfile.get("knobs", {}).get("junk") or 0) > 0
                 err = v["d"].get("err", "")
-                sig = "C07:saveinc.junk-offsets" if (junk and v["v"] == "saveinc-file-invalid" and "offset" in err) else "C07:" + v["v"] + (":" + err if err else "")
+                sig = prefix + ":saveinc.junk-offsets" if (junk and v["v"] == "saveinc-file-invalid" and "offset" in err) else prefix + ":" + v["v"] + (":" + err if err else "")
                 chk.violation(sig, {"verdict": v["d"], "newdoc": rec["newdoc"], "bytes": rec["bytes"], "round": rec.get("round")})
             lastfile = rec
             continue
         if ev == "LoadInc":
-            chk.violation("C07:" + v["v"], {"verdict": v["d"]})
+            chk.violation(prefix + ":" + v["v"], {"verdict": v["d"]})
             continue
         # Load
         src = lastfile
@@ -132,7 +138,7 @@ def judge(chk, recs, name, tier, from_producer):
         if v["v"].startswith("ok"):
             chk.traces += 1
             continue
-        sigs = [s for s in c02.signatures("C07", v)]
+        sigs = [s for s in c02.signatures(prefix, v)]
         own = [s for s in sigs if not s.startswith("C02:")]
         if not own:
             chk.extra["notes_c02_known_finding_cases"] = chk.extra.get("notes_c02_known_finding_cases", 0) + 1
